@@ -32,7 +32,7 @@ COMPONENTS = {'PIT / MPS / SuperNet wrappers and all searchable layers, maskers,
               'training script, aborts, crash/restart': 'simulated'}
 SIM_TIME_UNIT = 'ops of the simulated training loop'
 
-BASE_WEIGHTS = {'train_step': 4, 'backward_only': 0.7, 'opt_step': 0.7, 'forward_only': 0.7, 'perturb_arch': 0.7,
+BASE_WEIGHTS = {'train_step': 4, 'backward_only': 0.7, 'opt_step': 0.7, 'forward_only': 0.7, 'perturb_arch': 0.7, 'perturb_net': 0.7,
                 'set_mode': 1.2, 'train_group': 4, 'set_flag': 3, 'softmax_opts': 3.5, 'read_cost': 0.3}
 
 
@@ -135,10 +135,12 @@ def execute(case):
                 ref.kind[id(p)] = n.rsplit('.', 1)[-1] if n.rsplit('.', 1)[-1] in ('alpha', 'beta', 'gamma') else 'nas'
             else:
                 ref.kind[id(p)] = 'nas'
+        ref.kind_by_name = {}
         for n, p in model.named_parameters():
             ref.pname[id(p)] = n
             if id(p) not in nas_ids:
                 ref.kind[id(p)] = 'net'
+            ref.kind_by_name[n] = ref.kind[id(p)]     # a parameter OBJECT may be replaced later: its name keeps its group
         ref.samplers = [(n, m) for n, m in model.named_modules() if isinstance(m, (MPSBaseQtz, SuperNetCombiner))]
 
     scan(rep.model)
@@ -219,10 +221,11 @@ def execute(case):
                          f'{tag}: {n}.requires_grad is True', culprit)
                     return
             else:
-                want = exp[ref.kind.get(id(p), 'net')]
+                kind_ = ref.kind.get(id(p)) or ref.kind_by_name.get(n, 'net')
+                want = exp[kind_]
                 if bool(p.requires_grad) != bool(want):
                     fail('requires_grad does not match what the control calls issued so far should give',
-                         'requires-grad-' + ref.kind.get(id(p), 'net'),
+                         'requires-grad-' + kind_,
                          f'{tag}: {n}.requires_grad={p.requires_grad}, reference says {want} '
                          f'(reference state {exp})', culprit)
                     return
@@ -247,6 +250,9 @@ def execute(case):
         if opts is not None:
             for n, q in ref.samplers:
                 alpha = q.alpha.detach()
+                if not bool(torch.isfinite(alpha).all()):
+                    bump('sampler_check_skipped_nonfinite_coefficients')   # the statement covers finite values only
+                    continue
                 saved = q.theta_alpha
                 was = q.training
                 q.training = True
@@ -275,7 +281,7 @@ def execute(case):
                             want = F.one_hot(torch.argmax(want, dim=0), num_classes=want.shape[0]).t().float() \
                                 if want.dim() > 1 else F.one_hot(torch.argmax(want, dim=0), num_classes=want.shape[0]).float()
                 bump('sampler_behaviour_checks')
-                if got.shape != want.shape or not torch.allclose(got, want, rtol=1e-4, atol=1e-6):
+                if got.shape != want.shape or not torch.allclose(got, want, rtol=1e-4, atol=1e-6, equal_nan=True):
                     fail('a sampler does not behave as the options set so far say (an unspecified option was changed)',
                          'sampler-options', f'{tag}: {n}: reference options {opts}; sampled '
                          f'{got.flatten()[:4].tolist()} expected {want.flatten()[:4].tolist()}', culprit)
@@ -292,7 +298,7 @@ def execute(case):
                          f'{tag}: {n}.grad={g.flatten()[:4].tolist()}', culprit)
                     return
             else:
-                want = exp[ref.kind.get(id(p), 'net')]
+                want = exp[ref.kind.get(id(p)) or ref.kind_by_name.get(n, 'net')]
                 if not want:
                     bump('nontrainable_grad_checks')
                     if g is not None and bool(torch.any(g != 0)):
